@@ -236,8 +236,8 @@ def _gen_imp(rng):
                 s = rng.randrange(ns)
             t.append(s)
         trjs.append(t)
-    # every state must be visited with outgoing counts for the non-trimming case to be meaningful;
-    # the check itself does not depend on it
+    if len({x for t in trjs for x in t}) < 2 or max(max(t) for t in trjs) < 1:
+        trjs[0][0:2] = [0, 1]                # a one-state system has no timescale (n_eigs would be 1)
     return {"kind": "imp", "trjs": trjs, "lags": sorted(rng.sample([1, 2, 3, 4], rng.randint(1, 3))),
             "builder": rng.choice(["normalize", "transpose"]), "n_times": rng.choice([None, 1, 2, 3, 6]),
             "sliding": rng.random() < 0.5, "trim": rng.random() < 0.5}
@@ -761,8 +761,9 @@ def _coq_imp(c, r):
         return None
     ns = max(max(t) for t in c["trjs"]) + 1
     parts = ["optmat_close %s (Some %s)" % (m, _cmat(T)) for m, T in zip(_imp_terms(c, r), r["T"])]
-    parts.append("(Z.eqb (imp_n_times (imp_n_states %s) %s) %s)" % (
-        _ctrjs(c["trjs"]), copt(c["n_times"], cz, "Z"), cz(r["shape"][1])))
+    if not c["trim"]:    # (trimming may leave fewer states than timescales asked for)
+        parts.append("(Z.eqb (imp_n_times (imp_n_states %s) %s) %s)" % (
+            _ctrjs(c["trjs"]), copt(c["n_times"], cz, "Z"), cz(r["shape"][1])))
     return "(" + " && ".join(parts) + ")%bool"
 
 
